@@ -69,13 +69,15 @@ type Exec struct {
 	capture **model.Bucket
 
 	// knobs
-	FileChecks   bool // decode the file and run Tx.Check after every commit / reopen
-	TolerateErr  bool // an I/O fault is being injected: Commit may fail
-	DeepCursor   bool // dump also walks backwards
-	LastCommitOK bool
-	LastErr      error
-	LastDec      *dec.Result
-	LastShape    dec.Shape
+	AllowInvalidMeta bool // a failed commit may have left a torn meta record in the slot it was writing
+	BackupEvery      int  // >0: every n-th commit is also copied with WriteTo and the copy decoded
+	FileChecks       bool // decode the file and run Tx.Check after every commit / reopen
+	TolerateErr      bool // an I/O fault is being injected: Commit may fail
+	DeepCursor       bool // dump also walks backwards
+	LastCommitOK     bool
+	LastErr          error
+	LastDec          *dec.Result
+	LastShape        dec.Shape
 
 	// observers
 	OnBegin    func(txid int)
@@ -1004,6 +1006,11 @@ func (e *Exec) CheckFile(when string) {
 		e.fail("C12", "no-valid-meta", "after %s", when)
 		return
 	}
+	for mi := 0; mi < 2 && !e.AllowInvalidMeta; mi++ {
+		if !im.Metas[mi].Valid {
+			e.fail("C12", "meta-invalid", "after %s: meta page %d of a file at rest does not validate (%s): both meta pages of a cleanly written file carry magic, version 2 and a correct checksum", when, mi, im.Metas[mi].Why)
+		}
+	}
 	res := im.Decode(wi)
 	e.LastDec = res
 	if int(res.Meta.Txid) != e.LastTxid {
@@ -1115,6 +1122,58 @@ func (e *Exec) noteShape(res *dec.Result) {
 	e.LastShape = s
 }
 
+// CheckBackup copies the current state with Tx.WriteTo and judges the copy
+// with the independent decoder: exact size, both meta pages valid, all pages
+// accounted for, content equal to the model.
+func (e *Exec) CheckBackup(when string) {
+	if e.DB == nil {
+		return
+	}
+	var buf bytes.Buffer
+	var size int64
+	err := e.DB.View(func(tx *bolt.Tx) error {
+		size = tx.Size()
+		_, werr := tx.WriteTo(&buf)
+		return werr
+	})
+	if err != nil {
+		e.fail("C14", "copy-error", "after %s: WriteTo: %v", when, err)
+		return
+	}
+	e.Probes["backup-copies-decoded"]++
+	img := buf.Bytes()
+	if int64(len(img)) != size {
+		e.fail("C14", "size", "after %s: the copy has %d bytes, Tx.Size() reported %d", when, len(img), size)
+		return
+	}
+	im, derr := dec.Load(img)
+	if derr != nil {
+		e.fail("C12", "copy-undecodable", "after %s: %v", when, derr)
+		return
+	}
+	for mi := 0; mi < 2; mi++ {
+		if !im.Metas[mi].Valid {
+			e.fail("C12", "copy-meta-invalid", "after %s: meta page %d of the copy written by WriteTo does not validate (%s)", when, mi, im.Metas[mi].Why)
+			return
+		}
+	}
+	wi, _ := im.Winner()
+	res := im.Decode(wi)
+	if res.Fatal != "" || !res.Clean() {
+		e.fail("C14", "copy-accounting", "after %s: %s", when, res.ProblemString())
+		return
+	}
+	if d := model.Diff(res.Root, e.Cur); d != "" {
+		e.fail("C14", "copy-content", "after %s: the copy decodes to different content: %s", when, d)
+	}
+	// the older meta of the copy must describe the same tree (it is the fallback)
+	if o := im.Decode(1 - wi); o.Fatal == "" {
+		if d := model.Diff(o.Root, e.Cur); d != "" {
+			e.fail("C14", "copy-fallback-meta", "after %s: the copy's other meta page describes different content: %s", when, d)
+		}
+	}
+}
+
 // RunStepNoCheck runs a tx step without the post-transaction checks.
 func (e *Exec) RunStepNoCheck(i int, s *Step) {
 	e.step = i
@@ -1141,6 +1200,9 @@ func (e *Exec) RunStep(i int, s *Step) {
 			e.CheckContent(s.Tx.End)
 			if e.FileChecks && (e.LastCommitOK || e.LastErr != nil) {
 				e.CheckFile(s.Tx.End)
+			}
+			if e.BackupEvery > 0 && e.LastCommitOK && e.Probes["commit"]%e.BackupEvery == 0 && !e.Failed() {
+				e.CheckBackup(s.Tx.End)
 			}
 			for _, id := range e.readerIDs() {
 				e.CheckReader(id)
